@@ -31,7 +31,7 @@ no snapshot, `flush`/`reopen` do nothing.
 entry replaces the persisted entry of the same key in `entries()` and — keyed by the query — in exact
 lookups (fix 8e6d504, F10); an exact lookup scans all pending phrases of the query's syllables (fix
 2c45871, MaxCodePointPhrase).  A *prefix* lookup (`FuzzyPartialPrefix`) is answered from the merged view
-of `entries()` filtered by the per-syllable match (fix 097161a, F36) — before that fix it scanned the
+of `entries()` filtered by the per-syllable match (fix c3d9fb2, F36) — before that fix it scanned the
 persisted leaves only and applied the pending / tombstone filters keyed by the QUERY.
 -/
 namespace Chewing
@@ -181,7 +181,7 @@ def entries (s : State) : List Entry :=
     (fix 8e6d504, F10: a pending entry replaces the persisted one), then the pending range, minus
     tombstones *keyed by the query* — for an exact lookup the query IS the key of every candidate.
 
-    *Prefix* strategy (fix 097161a, F36): the merged view `entries_iter()` — every filter keyed by the
+    *Prefix* strategy (fix c3d9fb2, F36): the merged view `entries_iter()` — every filter keyed by the
     ENTRY's own key — restricted to the keys that match the query per syllable
     (`key.len() == query.len() && zip.all(starts_with)`; a `Vec<Syllable>` holds `NonZeroU16`s, so the
     `n == 0` guard `Trie`'s predicate carries — and `fuzzyMatch` with it — is vacuous here), phrases only.
